@@ -216,29 +216,37 @@ Proof.
   - intros E. now destruct (norm_axes_spec _ _ _ E) as (_ & Hlt & _).
 Qed.
 
-Theorem sum_backward_is_gather (g:tensor A) sa ax keep ks :
-  strict_axes (length sa) ax = Some ks ->
+(* what the three forms of the (possibly expanded) upstream gradient have in common *)
+Definition expanded_ok (g g':tensor A) sa ax keep ks : Prop :=
+  (keep = false /\ ax <> AxNone /\ tshape g' = red_shape (mask_of (length sa) ks) sa true /\
+     forall j, tat g' j = tat g (proj (mask_of (length sa) ks) false j))
+  \/ ((keep = true \/ ax = AxNone) /\ g' = g)
+  \/ (sa = [] /\ g' = g).
+
+Lemma expanded_gather (g g':tensor A) sa ax keep ks :
+  np_reduce_axes true (length sa) ax = Some ks ->
   tshape g = red_shape (mask_of (length sa) ks) sa keep ->
-  exists r, sum_backward g sa ax keep = Some r /\ tshape r = sa /\
+  expanded_ok g g' sa ax keep ks ->
+  exists r, badd (zeros sa) g' = Some r /\ tshape r = sa /\
     forall i, In i (idxs sa) -> tat r i = tat g (proj (mask_of (length sa) ks) keep i).
 Proof.
-  intros Hax Hg. set (m := mask_of (length sa) ks) in *.
+  intros Hax Hg Hcase. unfold expanded_ok in Hcase. set (m := mask_of (length sa) ks) in *.
   assert (Hm: length m = length sa) by apply mask_of_length.
-  destruct (bw_expand_spec g sa ax keep ks Hax Hg) as (g' & Eg & [(Hk & Hn & Hs & Ha)|(Hk & ->)]).
-  - fold m in Hs, Ha. subst keep. unfold sum_backward. rewrite Eg. cbn [obind]. unfold badd, bop. cbn [zeros tshape tat].
+  destruct Hcase as [(Hk & Hn & Hs & Ha)|[(Hk & ->)|(Hsa & ->)]].
+  - subst keep. unfold badd, bop. cbn [zeros tshape tat].
     rewrite Hs. rewrite (broadcast_shapes_absorb_r _ sa (red_shape_keep_broadcastable m sa Hm)).
     eexists. split. reflexivity. split. reflexivity. intros i Hi. cbn [tat]. rewrite sadd_0_l, Ha.
     unfold bcast_idx. rewrite red_shape_keep_length by auto. rewrite Nat.sub_diag. cbn [skipn].
-    rewrite bm_al_red_keep by auto. apply f_equal. fold m. apply proj_false_true.
+    rewrite bm_al_red_keep by auto. apply f_equal. apply proj_false_true.
     rewrite Hm. symmetry. now apply in_idxs_length.
-  - unfold sum_backward. rewrite Eg. cbn [obind]. unfold badd, bop. cbn [zeros tshape tat]. rewrite Hg.
+  - unfold badd, bop. cbn [zeros tshape tat]. rewrite Hg.
     destruct Hk as [->| ->].
     + rewrite (broadcast_shapes_absorb_r _ sa (red_shape_keep_broadcastable m sa Hm)).
       eexists. split. reflexivity. split. reflexivity. intros i Hi. cbn [tat]. rewrite sadd_0_l.
       unfold bcast_idx. rewrite red_shape_keep_length by auto. rewrite Nat.sub_diag. cbn [skipn].
       rewrite bm_al_red_keep by auto. reflexivity.
     + (* None *)
-      unfold strict_axes, np_reduce_axes in Hax. injection Hax as <-. unfold m in *. rewrite mask_of_all in *.
+      cbn [np_reduce_axes] in Hax. injection Hax as <-. unfold m in *. rewrite mask_of_all in *.
       destruct keep.
       * rewrite (broadcast_shapes_absorb_r _ sa (red_shape_keep_broadcastable _ sa Hm)).
         eexists. split. reflexivity. split. reflexivity. intros i Hi. cbn [tat]. rewrite sadd_0_l.
@@ -247,9 +255,17 @@ Proof.
       * rewrite red_shape_all_false. rewrite (broadcast_shapes_absorb_r _ sa (broadcastable_nil sa)).
         eexists. split. reflexivity. split. reflexivity. intros i Hi. cbn [tat]. rewrite sadd_0_l.
         unfold bcast_idx. cbn [bm_al]. apply in_idxs_length in Hi. rewrite <- Hi. now rewrite proj_all_false.
+  - (* 0-d operand *)
+    subst sa. unfold badd, bop. cbn [zeros tshape tat]. rewrite Hg. unfold m. cbn [length mask_of seq map red_shape].
+    eexists. split. reflexivity. split. reflexivity. intros i Hi. apply in_idxs_nil in Hi. subst i.
+    cbn [tat]. rewrite sadd_0_l. reflexivity.
 Qed.
 
-(* ---------- R3: sum ---------- *)
+Lemma legacy_is_strict n ax : n <> 0 -> np_reduce_axes true n ax = strict_axes n ax.
+Proof.
+  intros Hn. destruct ax as [|a|l]; unfold strict_axes; cbn [np_reduce_axes]; auto.
+  replace (n =? 0) with false by (symmetry; now apply Nat.eqb_neq). reflexivity.
+Qed.
 Lemma reduce_axes_legacy n ax ks : strict_axes n ax = Some ks -> np_reduce_axes true n ax = Some ks.
 Proof.
   destruct ax as [|a|l]; unfold strict_axes, np_reduce_axes; auto. cbn [andb].
@@ -258,24 +274,56 @@ Proof.
   apply andb_true_iff in E0 as [E0 _]. apply Nat.eqb_eq in E0. subst. apply norm_axis_lt in E. lia.
 Qed.
 
-Theorem sum_vjp_proof (a g:tensor A) ax keep ks :
-  strict_axes (rank a) ax = Some ks ->
-  tshape g = red_shape (mask_of (rank a) ks) (tshape a) keep ->
-  exists o r, sum_forward a ax keep = Some o /\ tshape o = tshape g /\
-    sum_backward g (tshape a) ax keep = Some r /\ tshape r = tshape a /\
-    dot (idxs (tshape o)) (tat g) (tat o) = dot (idxs (tshape a)) (tat r) (tat a).
+(* the guarded expansion used by sum / max / min, for every axis argument their forward accepts (incl. int axes on 0-d) *)
+Lemma bw_expand0_spec (g:tensor A) sa ax keep ks :
+  np_reduce_axes true (length sa) ax = Some ks ->
+  tshape g = red_shape (mask_of (length sa) ks) sa keep ->
+  exists g', bw_expand0 (length sa) g ax keep = Some g' /\ expanded_ok g g' sa ax keep ks.
 Proof.
-  intros Hax Hg. unfold rank in *. set (sa := tshape a) in *. set (m := mask_of (length sa) ks) in *.
-  assert (Hm: length m = length sa) by apply mask_of_length.
-  destruct (sum_backward_is_gather g sa ax keep ks Hax Hg) as (r & Er & Hr & Har).
-  unfold sum_forward. unfold rank. fold sa. rewrite (reduce_axes_legacy _ _ _ Hax). fold m.
-  eexists. exists r. split. reflexivity. split. { cbn [tshape]. now rewrite Hg. } split. exact Er. split. exact Hr.
-  cbn [tshape tat]. unfold dot.
+  intros Hax Hg. unfold bw_expand0. destruct (length sa =? 0) eqn:E0.
+  - apply Nat.eqb_eq in E0. exists g. split. reflexivity. right. right. split; auto. now apply length_zero_iff_nil.
+  - apply Nat.eqb_neq in E0. rewrite (legacy_is_strict _ _ E0) in Hax.
+    destruct (bw_expand_spec g sa ax keep ks Hax Hg) as (g' & Eg & Hc). exists g'. split. exact Eg.
+    destruct Hc as [Hc|Hc]; [left|right; left]; exact Hc.
+Qed.
+
+Theorem sum_backward_is_gather (g:tensor A) sa ax keep ks :
+  np_reduce_axes true (length sa) ax = Some ks ->
+  tshape g = red_shape (mask_of (length sa) ks) sa keep ->
+  exists r, sum_backward g sa ax keep = Some r /\ tshape r = sa /\
+    forall i, In i (idxs sa) -> tat r i = tat g (proj (mask_of (length sa) ks) keep i).
+Proof.
+  intros Hax Hg. destruct (bw_expand0_spec g sa ax keep ks Hax Hg) as (g' & Eg & Hc).
+  unfold sum_backward. rewrite Eg. cbn [obind]. now apply (expanded_gather g g' sa ax keep ks).
+Qed.
+
+(* ---------- R3: sum ---------- *)
+(* <g, sum a> = <r, a> for any r that is the gather of g along the projection *)
+Lemma sum_dot_core (a g:tensor A) m keep (r:idx->A) : length m = length (tshape a) ->
+  (forall i, In i (idxs (tshape a)) -> r i = tat g (proj m keep i)) ->
+  dot (idxs (red_shape m (tshape a) keep)) (tat g) (fun j => isum (fibre m (tshape a) keep j) (tat a)) =
+  dot (idxs (tshape a)) r (tat a).
+Proof.
+  intros Hm Har. set (sa := tshape a) in *. unfold dot.
   transitivity (isum (idxs (red_shape m sa keep)) (fun j => isum (fibre m sa keep j) (fun i => smul (tat g (proj m keep i)) (tat a i)))).
   - apply isum_ext. intros j Hj. rewrite <- isum_mul_l.
     rewrite !(fibre_sum_is_scatter m sa keep j) by auto. apply isum_ext. intros i _.
     destruct (idx_eqb (proj m keep i) j) eqn:E. apply idx_eqb_spec in E. now subst. reflexivity.
   - rewrite <- (isum_by_fibres m sa keep) by auto. apply isum_ext. intros i Hi. now rewrite Har.
+Qed.
+
+Theorem sum_vjp_proof (a g:tensor A) ax keep ks :
+  np_reduce_axes true (rank a) ax = Some ks ->
+  tshape g = red_shape (mask_of (rank a) ks) (tshape a) keep ->
+  exists o r, sum_forward a ax keep = Some o /\ tshape o = tshape g /\
+    sum_backward g (tshape a) ax keep = Some r /\ tshape r = tshape a /\
+    dot (idxs (tshape o)) (tat g) (tat o) = dot (idxs (tshape a)) (tat r) (tat a).
+Proof.
+  intros Hax Hg. unfold rank in *.
+  destruct (sum_backward_is_gather g (tshape a) ax keep ks Hax Hg) as (r & Er & Hr & Har).
+  unfold sum_forward. unfold rank. rewrite Hax.
+  eexists. exists r. split. reflexivity. split. { cbn [tshape]. now rewrite Hg. } split. exact Er. split. exact Hr.
+  cbn [tshape tat]. apply sum_dot_core; auto. apply mask_of_length.
 Qed.
 
 (* ---------- R4: mean ---------- *)
@@ -328,18 +376,17 @@ Theorem mean_vjp_proof (a g:tensor A) ax keep ks :
     mean_backward g (tshape a) ax keep = Some r /\ tshape r = tshape a /\
     dot (idxs (tshape o)) (tat g) (tat o) = dot (idxs (tshape a)) (tat r) (tat a).
 Proof.
-  intros Hax Hg.
-  destruct (sum_vjp_proof a g ax keep ks Hax Hg) as (o & r & Eo & Ho & Er & Hr & Hdot).
-  unfold mean_forward, mean_backward. unfold strict_axes in Hax. rewrite Hax.
-  assert (X: exists g', bw_expand g ax keep = Some g' /\ badd (zeros (tshape a)) g' = Some r).
-  { revert Er. unfold sum_backward. destruct (bw_expand g ax keep) as [g1|]; cbn [obind]; [|intros; discriminate]. intros Er. exists g1. split; auto. }
-  destruct X as (g' & Eg & Eb). rewrite Eg. cbn [obind]. rewrite Eb. cbn [obind].
-  unfold sum_forward in Eo. rewrite (reduce_axes_legacy _ _ _ Hax) in Eo. injection Eo as <-.
-  eexists. eexists. split. reflexivity. split. exact Ho. split. reflexivity. split. exact Hr.
-  cbn [tshape tat tmap] in *. unfold rank in *. rewrite (mean_n_samples_spec _ _ _ Hax).
-  set (c := fibre_size _ _). unfold dot in *.
-  transitivity (sdivn (isum (idxs (red_shape (mask_of (length (tshape a)) ks) (tshape a) keep))
-      (fun k => smul (tat g k) (isum (fibre (mask_of (length (tshape a)) ks) (tshape a) keep k) (tat a)))) c).
+  intros Hax Hg. unfold rank in *.
+  destruct (bw_expand_spec g (tshape a) ax keep ks Hax Hg) as (g' & Eg & Hc).
+  destruct (expanded_gather g g' (tshape a) ax keep ks (reduce_axes_legacy _ _ _ Hax) Hg) as (r & Eb & Hr & Har).
+  { destruct Hc as [Hc|Hc]; [left|right; left]; exact Hc. }
+  unfold mean_forward, mean_backward. unfold rank. unfold strict_axes in Hax. rewrite Hax, Eg. cbn [obind]. rewrite Eb. cbn [obind].
+  eexists. eexists. split. reflexivity. split. { cbn [tshape]. now rewrite Hg. } split. reflexivity. split. exact Hr.
+  cbn [tshape tat tmap]. rewrite (mean_n_samples_spec _ _ _ Hax).
+  set (m := mask_of (length (tshape a)) ks) in *. set (c := fibre_size _ _).
+  pose proof (sum_dot_core a g m keep (tat r) (mask_of_length _ _) Har) as Hdot. unfold dot in *.
+  transitivity (sdivn (isum (idxs (red_shape m (tshape a) keep))
+      (fun k => smul (tat g k) (isum (fibre m (tshape a) keep k) (tat a)))) c).
   { rewrite <- isum_sdivn. apply isum_ext. intros k _. apply sdivn_mul_r. }
   rewrite Hdot. rewrite <- isum_sdivn. apply isum_ext. intros k _. symmetry. apply sdivn_mul_l.
 Qed.
